@@ -32,6 +32,8 @@ METHODS = [
 ]
 PATTERN = re.compile(r"\.(" + "|".join(METHODS) + r")\(")
 
+INLINE_MOD = re.compile(r"^(\s*)(?:pub(?:\([^)]*\))?\s+)?mod\s+\w+\s*\{\s*$")
+
 TRAIT = '''
 // ---- appended by /verif/tools/instrument.py (automatic sync-point instrumentation) ----
 /// Blanket helper: a scheduling point in front of a synchronisation operation.
@@ -76,7 +78,14 @@ def add_use(text):
     while i < len(lines) and (lines[i].strip() == "" or lines[i].lstrip().startswith("//") or lines[i].lstrip().startswith("#![")):
         i += 1
     lines.insert(i, "#[allow(unused_imports)]\nuse crate::verif::VerifSync as _;")
-    return "\n".join(lines)
+    # inline modules have a scope of their own
+    out = []
+    for line in lines:
+        out.append(line)
+        m = INLINE_MOD.match(line)
+        if m:
+            out.append(m.group(1) + "    #[allow(unused_imports)]\n" + m.group(1) + "    use crate::verif::VerifSync as _;")
+    return "\n".join(out)
 
 
 def main():
